@@ -174,7 +174,7 @@ func runIdxKeyType(c *core.Ctx) {
 	byWhat := map[int64]map[string][]string{} // What → value type → sites
 	n := 0
 	for _, fn := range P.ModFuncs {
-		if fileOf(c, fn) != "event_cache.go" {
+		if c.P.PkgOf(fn) != core.ModulePath {
 			continue
 		}
 		an.Instrs(fn, func(in ssa.Instruction) {
